@@ -2,70 +2,58 @@
    the C02/ files; Print Assumptions is evaluated by ./check on every run.
 
    Reading guide.  [check] is the Gallina model (C02/Model.v) of the gate as it is in /repo
-   (tsk_treeseq_init -> tsk_table_collection_check_integrity(TSK_CHECK_TREES));
-   [check_repaired] is the same code with the two one-condition repairs of findings F1/F14;
+   SINCE the fix commits e4937b5 (F1) and c14733b (F14):
+   tsk_treeseq_init -> tsk_table_collection_check_integrity(TSK_CHECK_TREES); it is the model
+   the per-run correspondence compares with the implementation.  [tree_sequence_gate] adds
+   TableCollection.tree_sequence()'s "build the index if there is none".
    [ValidTS] (C02/Spec.v) is the declarative data-model predicate, one clause per requirement;
    [WF] is the reachable-state invariant "columns of a table have equal length, ragged offsets
-   well formed, index arrays as long as the edge table" — cell VALUES are arbitrary. *)
+   well formed, index arrays as long as the edge table" — cell VALUES are arbitrary.
+   [pinned] is the pre-fix code (380c75d), kept only for the two historical refutations. *)
 From Coq Require Import List ZArith.
 From TskVerif Require Import Base.Common C02.Fl C02.Model C02.Spec C02.Sound C02.SweepComplete C02.Refuted C02.Top C02.BuildIndex.
 Open Scope Z_scope.
 
-(* (a) the gate never indexes out of bounds, whatever the cell values: every id is
-   range-checked before it is used as an array index.  FULL statement, both variants. *)
-Theorem check_no_oob : forall t, WF t -> check t <> OOB /\ check_repaired t <> OOB.
-Proof. exact check_no_oob_top. Qed.
+(* (a) memory safety: whatever the cell values, the gate never indexes out of bounds — every id
+   is range-checked before it is used as an array index.  FULL. *)
+Theorem check_no_oob : forall t, WF t -> check t <> OOB.
+Proof. exact check_no_oob_now. Qed.
 
-(* (a') termination of the gate on arbitrary cell values (no WF): the while loop of
-   check_tree_integrity cannot spin — after its first iteration every iteration consumes an index
-   entry or fails.  FULL for finite sequence_length (non-finite lengths are finding F14). *)
-Theorem check_terminates : forall t Lz, seqlen t = Fin Lz -> check t <> Fuel.
-Proof. exact check_terminates_top. Qed.
+(* (a') termination on arbitrary tables (no WF): the while loop of check_tree_integrity cannot
+   spin — after its first iteration every iteration consumes an index entry or fails; a
+   non-finite sequence_length is rejected up front.  FULL, unconditional. *)
+Theorem check_terminates : forall t, check t <> Fuel.
+Proof. exact check_terminates_now. Qed.
 
-(* (a'') the repaired gate is total: a tree count or a library error class, nothing else *)
-Theorem check_repaired_total : forall t, WF t ->
-  (exists n, check_repaired t = Ok n) \/ (exists c, check_repaired t = Err c).
-Proof. exact check_repaired_total_top. Qed.
+(* (a'') totality: a tree count or a library error class, nothing else *)
+Theorem check_total : forall t, WF t ->
+  (exists n, check t = Ok n) \/ (exists c, check t = Err c).
+Proof. exact check_total_top. Qed.
 
-(* (b0) the per-table requirement classes (references in range, finite coordinates and times,
-   0 <= left < right <= L, parent older than child, edge order and contiguity, site order and
-   uniqueness, all mutation row/order/known-unknown clauses, migrations, individuals, offsets)
-   follow from acceptance with NO hypothesis on the tables at all. FULL for these classes. *)
+(* (b0) the per-table requirement classes follow from acceptance with NO hypothesis on the tables *)
 Theorem check_sound_rows : forall t n, check t = Ok n -> RowsValid t.
 Proof. exact (gate_sound_rows code_variant). Qed.
 
-(* (b) soundness of the gate as it is: every clause of ValidTS except the two refuted below.
-   PARTIAL with respect to  check t = Ok n -> ValidTS t : missing are "the removal order is a
-   permutation" (F1) and "sequence_length is finite" (F14; here a hypothesis). *)
-Theorem check_sound_partial : forall t n z,
-  WF t -> seqlen t = Fin z -> check t = Ok n -> ValidTS_but_F1_F14 t.
-Proof. exact check_sound_partial_lemma. Qed.
+(* (b) soundness, FULL: an accepted collection satisfies every clause of ValidTS *)
+Theorem check_sound : forall t n, WF t -> check t = Ok n -> ValidTS t.
+Proof. exact check_sound_top. Qed.
 
-(* (b') the FULL soundness statement holds for the repaired gate *)
-Theorem check_repaired_sound : forall t n, WF t -> check_repaired t = Ok n -> ValidTS t.
-Proof. exact check_repaired_sound_lemma. Qed.
-
-(* (c) completeness: every valid collection is accepted (code as it is, and repaired).
-   FULL up to the stated bound excluding TSK_ERR_TREE_OVERFLOW; includes that the fuel of the
-   model's main loop is sufficient. *)
+(* (c) completeness, FULL up to the visible bound that excludes TSK_ERR_TREE_OVERFLOW; includes
+   that the fuel of the model's main loop is sufficient *)
 Theorem check_complete : forall t, WF t -> ValidTS t -> 2 * num_edges t + 1 < TSK_MAX_ID ->
-  (exists n, check t = Ok n) /\ (exists n, check_repaired t = Ok n).
-Proof. exact check_complete_top. Qed.
+  exists n, check t = Ok n.
+Proof. exact check_complete_now. Qed.
 
-(* (c') the number returned for a valid collection is the number of trees by definition: the
-   number of distinct values among 0 and the edge end points that lie below L.  FULL. *)
-Theorem check_num_trees : forall t n Lz, WF t -> ValidTS t -> 2 * num_edges t + 1 < TSK_MAX_ID ->
+(* (b+c) the gate decides ValidTS exactly *)
+Theorem check_iff : forall t, WF t -> 2 * num_edges t + 1 < TSK_MAX_ID ->
+  ((exists n, check t = Ok n) <-> ValidTS t).
+Proof. exact check_iff_top. Qed.
+
+(* (c') the number returned is the number of trees by definition: the number of distinct values
+   among 0 and the edge end points that lie below L.  FULL. *)
+Theorem check_num_trees : forall t n Lz, WF t -> 2 * num_edges t + 1 < TSK_MAX_ID ->
   seqlen t = Fin Lz -> check t = Ok n -> n = num_trees_spec t Lz.
-Proof. exact check_count_top. Qed.
-
-Theorem check_repaired_num_trees : forall t n Lz, WF t -> 2 * num_edges t + 1 < TSK_MAX_ID ->
-  seqlen t = Fin Lz -> check_repaired t = Ok n -> n = num_trees_spec t Lz.
-Proof. exact check_repaired_count_top. Qed.
-
-(* (b'+c) the repaired gate decides ValidTS exactly *)
-Theorem check_repaired_iff : forall t, WF t -> 2 * num_edges t + 1 < TSK_MAX_ID ->
-  ((exists n, check_repaired t = Ok n) <-> ValidTS t).
-Proof. exact check_repaired_iff_top. Qed.
+Proof. exact check_accepted_count_top. Qed.
 
 (* (e) build_index (as modelled: the index_sort_t keys, cmp_index_sort, a sort) yields two
    permutations of the edge ids by nondecreasing left / right.  FULL. *)
@@ -74,9 +62,9 @@ Theorem build_index_valid : forall t, EdgeRowsOK t -> forall t', build_index t =
 Proof. exact build_index_valid_lemma. Qed.
 
 (* (e') TableCollection.tree_sequence() on tables WITHOUT an index (has_index() false ->
-   build_index() -> gate), for the code as it is.  The built index is always a permutation, so
-   finding F1 cannot arise on this path: acceptance is equivalent to the non-index clauses, up to
-   the finiteness of sequence_length (F14).  FULL for this path. *)
+   build_index() -> gate): acceptance is equivalent to the non-index clauses.  FULL for this path
+   (the finiteness of sequence_length is kept as a hypothesis of the first statement only to
+   name L; the gate itself rejects non-finite lengths). *)
 Theorem gate_unindexed_sound : forall t n z, WF t -> idx t = None -> seqlen t = Fin z ->
   tree_sequence_gate t = Ok n ->
   SeqlenOK t /\ RowsValid t /\ ChildIntervalsDisjoint t /\ MutBelowParentNodeOK t.
@@ -88,11 +76,12 @@ Theorem gate_unindexed_complete : forall t,
   exists n, tree_sequence_gate t = Ok n.
 Proof. exact gate_accepts_unindexed_full. Qed.
 
-(* (d) REFUTED on the faithful model: full soundness fails for the code as it is *)
-Theorem check_sound_index_refuted :
-  exists t, WF t /\ SeqlenOK t /\ check_integrity faithful opts_trees t = Ok 1 /\ ~ IndexOK t.
+(* (d) HISTORICAL RECORD, about the PINNED pre-fix code only (not the current model): full
+   soundness failed before e4937b5 / c14733b *)
+Theorem check_sound_index_pinned_refuted :
+  exists t, WF t /\ SeqlenOK t /\ check_integrity pinned opts_trees t = Ok 1 /\ ~ IndexOK t.
 Proof. exact f1_refuted. Qed.
 
-Theorem check_sound_seqlen_refuted :
-  exists t n, WF t /\ check_integrity faithful opts_trees t = Ok n /\ ~ SeqlenOK t.
+Theorem check_sound_seqlen_pinned_refuted :
+  exists t n, WF t /\ check_integrity pinned opts_trees t = Ok n /\ ~ SeqlenOK t.
 Proof. exact f14_refuted. Qed.
